@@ -662,8 +662,11 @@ impl SwarmDriver {
                     Ok(record_header) => {
                         match record_header.kind {
                             RecordKind::Chunk => RecordType::Chunk,
-                            RecordKind::Scratchpad => RecordType::Scratchpad,
-                            RecordKind::Transaction | RecordKind::Register => {
+                            // mutable records are typed by their content hash, so that replication
+                            // can tell two versions apart (as the store does when it restarts)
+                            RecordKind::Scratchpad
+                            | RecordKind::Transaction
+                            | RecordKind::Register => {
                                 let content_hash = XorName::from_content(&record.value);
                                 RecordType::NonChunk(content_hash)
                             }
